@@ -3,6 +3,7 @@ replayed on every source kind reachable through the public API, ViewsTrace.tla v
 each operation returned against the denotation."""
 import json
 import os
+import zlib
 import random
 import re
 import shutil
@@ -111,6 +112,18 @@ def locate(expected, text):
                 cands.append(i)
             i = expected.find(hb, i + 1)
         return ln, False, cands
+    if text.startswith("z:"):
+        _, ln, h, head = text.split(":")
+        ln = int(ln)
+        hb = bytes.fromhex(head)
+        cands = []
+        i = expected.find(hb)
+        while i >= 0 and len(cands) < 8:
+            part = expected[i:i + ln]
+            if "%08x%08x" % (zlib.crc32(part) & 0xFFFFFFFF, zlib.adler32(part) & 0xFFFFFFFF) == h:
+                cands.append(i)
+            i = expected.find(hb, i + 1)
+        return ln, False, cands
     b = bytes.fromhex(text)
     if not b:
         return 0, True, []
@@ -155,7 +168,7 @@ def trace_of(s, run, expected, root_kind):
 
 def build_sources(binary, base, rng, tier):
     """create the packs the views are taken from; returns list of source descriptors"""
-    lens = [6, 96, 4200] if tier == "quick" else [6, 13, 96, 600, 4200, 70000]
+    lens = [6, 96, 4200, 200000] if tier == "quick" else [6, 13, 96, 600, 4200, 70000, 200000]
     ops = []
     for i, ln in enumerate(lens):
         ops.append({"cid": 900 + i, "size": 37 + i, "cls": "rand", "hint": "detect"})     # keeps targets off offset 0
@@ -221,7 +234,7 @@ def run(prop, tier):
         rep.add_tlc(r, "MC_Views N=%d MaxViews=%d" % (n, mv))
         if not r["ok"]:
             rep.violation("design: Views violates %s" % r["violated"], {"tlc": r.get("out", "")[-3000:]})
-    behs, err = simulate(9, 12 if tier == "quick" else 60, 150 if tier == "quick" else 2500)
+    behs, err = simulate(9, 12 if tier == "quick" else 60, 150 if tier == "quick" else 600)
     if behs is None:
         rep.violation("design: MC_Views simulation violates an invariant", {"tlc": err})
         behs = []
